@@ -163,10 +163,18 @@ Fixpoint evict (rp : bool) (own : N) (snap : list peer) (t : table) (p : peer) :
 (* ---------- what add_peer asks of the peer manager, the clock and the probe ---------- *)
 Inductive lr_state := Stale | Edge | Fresh.
 (* Stale: not last_replied or last_replied + 60 < now;  Fresh: last_replied and last_replied + 60 > now *)
+(* what happens when a contact is probed (the ping of KademliaProtocol._add_peer):
+   PReply      the probe returns (the contact answered);
+   PDead       asyncio.TimeoutError or RemoteException (no answer in time, or an error answer): the only outcomes
+               add_peer takes as "the incumbent is dead";
+   PLocalFail  any other exception, raised before the contact was even asked -- in production the OSError of a
+               failing local sendto() (EWOULDBLOCK, ENETUNREACH ...) that KademliaProtocol._send puts on the
+               pending future: it propagates out of add_peer, nothing is displaced. *)
+Inductive pout := PReply | PDead | PLocalFail.
 Record env := mkEnv {
   good : peer -> bool;          (* contact_triple_is_good(...) is True *)
   lrs : peer -> lr_state;       (* get_last_replied against loop.time() *)
-  probe : peer -> bool          (* true = the probe returns; false = asyncio.TimeoutError / RemoteException *)
+  probe : peer -> pout
 }.
 
 Definition is_stale (s : lr_state) : bool := match s with Stale => true | _ => false end.
@@ -183,7 +191,8 @@ Definition choose_replace (e : env) (b : bucket) : option peer :=
           end
   end.
 
-Inductive res := Ret (b : bool) | ErrIndex | ErrFuel.
+(* ErrProbe: the probe's own exception (PLocalFail) leaves add_peer; no _join_buckets on the way out *)
+Inductive res := Ret (b : bool) | ErrIndex | ErrFuel | ErrProbe.
 Definition is_ret (r : res) : bool := match r with Ret _ => true | _ => false end.
 
 (* ---------- TreeRoutingTable.add_peer: (result, peers probed in order, table) ---------- *)
@@ -210,10 +219,13 @@ Fixpoint add_peer (rp : bool) (own : N) (e : env) (fuel : nat) (t : table) (p : 
             match choose_replace e b with
             | None => (Ret false, [], t1)
             | Some q =>
-              if probe e q then (Ret false, [q], t1)
-              else match add_peer rp own e f (pre ++ bucket_remove b q :: post) p with
-                   | (r, pr, t3) => (r, q :: pr, t3)
-                   end
+              match probe e q with
+              | PReply => (Ret false, [q], t1)
+              | PLocalFail => (ErrProbe, [q], t1)
+              | PDead => match add_peer rp own e f (pre ++ bucket_remove b q :: post) p with
+                         | (r, pr, t3) => (r, q :: pr, t3)
+                         end
+              end
             end
         end
       end
@@ -337,7 +349,7 @@ Definition lr_of (m : pm) (now : N) (k : akey) : lr_state :=
               else Edge
   end.
 
-Definition env_of_pm (m : pm) (now : N) (pr : peer -> bool) : env :=
+Definition env_of_pm (m : pm) (now : N) (pr : peer -> pout) : env :=
   mkEnv (fun q => match triple_is_good m now (paddr q, pport q) with GTrue => true | _ => false end)
         (fun q => lr_of m now (paddr q, pport q))
         pr.
@@ -351,7 +363,8 @@ Inductive sop :=
 | SReplied (k : akey)
 | SFailure (k : akey)
 | SRequested (k : akey)
-| SAdd (p : peer) (pr : peer -> bool)
+| SAdd (p : peer) (pr : peer -> pout)                 (* add_peer with a probe that touches nothing else *)
+| SAddReal (p : peer) (pr : peer -> pout) (wait : N)  (* KademliaProtocol._add_peer: the probe is a real ping *)
 | SAddNoId
 | SRemove (p : peer)
 | SRemoveNoId.
@@ -360,15 +373,33 @@ Inductive sop :=
 Definition table_op (s : sys) (o : sop) : option op :=
   match o with
   | SAdd p pr => Some (Add p (env_of_pm (s_pm s) (s_now s) pr))
+  | SAddReal p pr _ => Some (Add p (env_of_pm (s_pm s) (s_now s) pr))
   | SAddNoId => Some AddNoId
   | SRemove p => Some (Remove p)
   | SRemoveNoId => Some RemoveNoId
   | _ => None
   end.
 
+(* what a real ping leaves in the peer manager (send_request / handle_response_datagram): an answer is recorded by
+   report_last_replied, a timeout or an error answer by report_failure, a failed local send by nothing *)
+Definition ping_effects (m : pm) (now : N) (pr : peer -> pout) (probed : list peer) : pm :=
+  fold_left (fun m q => match pr q with
+                        | PReply => report_last_replied m (paddr q, pport q) now
+                        | PDead => report_failure m (paddr q, pport q) now
+                        | PLocalFail => m
+                        end) probed m.
+
+Definition probed_of (x : out) : list peer := match x with OAdd _ l => l | _ => [] end.
+
 Definition sys_step (rp : bool) (own : N) (s : sys) (o : sop) : sys * option out :=
   match table_op s o with
-  | Some to => let (t', x) := step rp own (s_tab s) to in (mkSys t' (s_pm s) (s_now s), Some x)
+  | Some to =>
+      let (t', x) := step rp own (s_tab s) to in
+      match o with
+      | SAddReal _ pr wait =>      (* the clock moves while the ping waits for its timeout *)
+          (mkSys t' (ping_effects (s_pm s) (s_now s + wait) pr (probed_of x)) (s_now s + wait), Some x)
+      | _ => (mkSys t' (s_pm s) (s_now s), Some x)
+      end
   | None =>
       match o with
       | STick dt => (mkSys (s_tab s) (s_pm s) (s_now s + dt), None)
